@@ -85,6 +85,10 @@ EXPLANATION += (
     ' Round 13: keys the tree validator inspects are maintained by flatten and drop_level (R-AGREE/validator-vs-reducers).'
 )
 
+EXPLANATION += (
+    ' Round 14: the loop that hands the shared generator to the elections walks a plainly sorted sequence on every path (R-ORDER/elections-in-name-order).'
+)
+
 RULE_TEXT = (
     "one obligation per consumer of the tree, per reducer call, per "
     "drop_level(<config>) call site, per flatten rebinding")
@@ -112,6 +116,7 @@ def check(ctx):
     check_tree_queried_with_own_nodes(ctx)
     check_validator_keys_maintained(ctx)
     check_election_order_by_name(ctx)
+    check_genes_of_this_parent(ctx)
     # the level that was dropped is filled in from the finer assignment by
     # the parent table of *that* level (shared with C01)
     from .C01 import check_backfill
@@ -869,4 +874,51 @@ def check_election_order_by_name(ctx, rule='R-ORDER/elections-in-name-order'):
                    'not share')
             break
     ctx.floor(rule, 1)
+    return n
+
+
+def check_genes_of_this_parent(ctx, rule='R-PROV/genes-of-this-parent'):
+    """the genes an election is held over are the parent's own entry of
+    the marker cache: in assemble_query_data every list of names handed to
+    downsample_genes / downsample_genes_in_place is computed, on every
+    path, from the 'reference' / 'query' positions of the parent's group
+    and the two name tables -- from no other dataset of the file.  The
+    cache's union of all markers still lists the genes of the groups a
+    dropped level had; a fallback on it makes the run differ from a run on
+    the reduced taxonomy with its own table."""
+    from ..rules.roles import _selection_atoms
+    fi = ctx.db.fn('type_assignment.matching:assemble_query_data')
+    cfg = cfg_of(fi)
+    rd = rd_of(fi)
+    ex = Expander(fi)
+    allowed = {'reference', 'query', 'reference_gene_names',
+               'query_gene_names'}
+    n = 0
+    for node in cfg.nodes:
+        if node.id not in rd.live:
+            continue
+        for c in cfg.calls_in(node):
+            nm = getattr(c.func, 'attr', getattr(c.func, 'id', None))
+            if nm not in ('downsample_genes', 'downsample_genes_in_place'):
+                continue
+            arg = None
+            for k in c.keywords:
+                if k.arg == 'selected_genes':
+                    arg = k.value
+            if arg is None and c.args:
+                arg = c.args[0]
+            if arg is None:
+                continue
+            n += 1
+            reads, _ = _selection_atoms(ex.expand(arg, node.id))
+            extra = sorted(reads - allowed)
+            ok = not extra and bool(reads & {'reference', 'query'})
+            ctx.touch(fi)
+            ctx.ob(rule, f'{fi.qual}:{nm}#{n - 1}', fi.loc(c), ok,
+                   'the genes are the parent\'s own entry' if ok else
+                   f'`{unparse(arg)[:40]}` is computed from '
+                   f'{sorted(reads)}: ' + (
+                       f'{extra} is not the entry of this parent'
+                       if extra else 'not from the entry of this parent'))
+    ctx.floor(rule, 2)
     return n
